@@ -23,6 +23,7 @@ func init() {
 		Rule: "history tree of all sequences of <=2 operations over all 32 property layouts (a,b in {absent,value,function,method}; _missing in {absent,method}) and of <=3 operations over 8 layouts " +
 			"(thorough: <=3 over 16 layouts, <=4 over 4) where an operation is `v := {L}`, `v := 1.bear({L})`, `v := \"s\".bear({L})`, `v := vJ.bear({L})`, `v := vJ.bro({L})`; in every final state every object is probed with " +
 			"(plus two further families: a property shadowing the built-in S with a non-callable _missing, and objects identified only by a private `_id` so that same-layout objects have identical public properties) " +
+			"every forest of <=2 (thorough 3) objects is probed a second time after 10 operations per object that only read it (merging literals, ** into calls/maps, digest, chain digest, bear/bro, listing, comparing, printing, patch, del); " +
 			"o.n, o.n(9), o['n], which for n in {a,b,c}, proto, ancestors, keys, keys(private?), kindOf? against every object; states = forests, transitions = operations; " +
 			"non-trivial = forest with inheritance (at least one bear/bro); distinct = distinct operation sequence",
 		Assumptions: []string{
@@ -59,6 +60,35 @@ func (t tcase) idn() string { return t.Objs[0].idn() }
 
 type tcase struct {
 	Objs []odef `json:"objs"`
+	// Noise: after the forest is built every object is read by operations that build other values from it
+	// (merging literals, ** into calls and maps, digest, bear, listing, comparing, printing); lookups must be unaffected
+	Noise bool `json:"noise,omitempty"`
+}
+
+func (t tcase) noise() string {
+	if !t.Noise {
+		return ""
+	}
+	var sb strings.Builder
+	sb.WriteString("kfn := {|| \\_}\n")
+	for k := range t.Objs {
+		v := fmt.Sprintf("v%d", k)
+		for _, e := range []string{
+			"{**" + v + ", **{a: 777, b: 777, c: 777, S: 777, zz: 1}}",
+			"{**" + v + ", **" + v + ", **{c: 778}}",
+			"%{**" + v + ", **%{'c: 779}}",
+			"kfn(**" + v + ", **{c: 780, a: 780})",
+			v + ".digest([['c, 781], ['a, 781]])",
+			"[['q, 1]]@(" + v + "){|x| x}",
+			v + ".bear({c: 782}).bro({a: 782})",
+			"[" + v + ".keys, " + v + ".values, " + v + ".items, " + v + ".A, " + v + " == " + v + ", " + v + ".S, " + v + ".repr]",
+			v + ".patch(c: 783, a: 783)",
+			v + ".del('a)",
+		} {
+			sb.WriteString("nil.try.{|u| " + e + "}\n")
+		}
+	}
+	return sb.String()
 }
 
 // parent returns the model parent: >=0 user object, -1 Obj, -2 the int 1, -3 the str "s".
@@ -159,7 +189,7 @@ func (t tcase) defs() string {
 			fmt.Fprintf(&sb, "v%d := v%d.bro(%s)\n", k, o.Of, l)
 		}
 	}
-	return sb.String()
+	return sb.String() + t.noise()
 }
 
 type probe struct {
@@ -389,11 +419,17 @@ func layouts(set string) []odef {
 	return ls
 }
 
+// noiseDepth: forests of up to this many objects are also probed after the noise operations
+var noiseDepth = 2
+
 func gen(depth int, ls []odef, emit func(tcase)) {
 	var rec func(objs []odef)
 	rec = func(objs []odef) {
 		if len(objs) == depth {
 			emit(tcase{Objs: append([]odef{}, objs...)})
+			if depth <= noiseDepth {
+				emit(tcase{Objs: append([]odef{}, objs...), Noise: true})
+			}
 			return
 		}
 		for _, l := range ls {
@@ -476,7 +512,11 @@ func run(c *core.Ctx) {
 	if c.Thorough() {
 		plans = []plan{{1, "full"}, {2, "full"}, {3, "16"}, {4, "4"}, {2, "family2"}, {3, "family2"}, {3, "family3"}, {4, "family3-small"}}
 	}
+	if c.Thorough() {
+		noiseDepth = 3
+	}
 	c.Note("plans(depth,layout-set)", fmt.Sprint(plans))
+	c.Note("noise_variants_up_to_depth", noiseDepth)
 	n := 0
 	var curSafe []probe
 	var curRaising []probe
